@@ -216,6 +216,13 @@ def run_coq(name, text, timeout=600):
         (RUN / ("." + name + ".aux")).unlink()
     except OSError:
         pass
+    # the generated case file is kept only when it failed to evaluate (disk: a thorough pass writes several GB of them);
+    # VERIF_KEEP_RUN=1 keeps everything for debugging
+    if r.returncode == 0 and not os.environ.get("VERIF_KEEP_RUN"):
+        try:
+            path.unlink()
+        except OSError:
+            pass
     return r.returncode == 0, r.stdout, r.stderr
 
 
